@@ -19,7 +19,9 @@
 From V Require Export Base.Bytes Base.Int64.
 Local Open Scope N_scope.
 
-Inductive dval := DInt (z : Z) | DFloat (bits : N).
+(* DHist: a Buckets datum as (Count, Sum); the harness observes small integers
+   only, so Sum is exact.  The distribution over buckets is C21's subject. *)
+Inductive dval := DInt (z : Z) | DFloat (bits : N) | DHist (count : N) (sum : Z).
 (* value and time; the time is 0 (set at compile time with time.Unix(0,0)) or
    the index of the history step that stamped it *)
 Record datum := mkdatum { dv : dval; dt : Z }.
